@@ -73,6 +73,24 @@ pub fn plan(tier: Tier, seed: u64) -> Value {
     let nops = 4 + rng.usize_below(match tier { Tier::Quick => 14, Tier::Thorough => 30 });
     let mut ops = Vec::new();
     let mut down: BTreeSet<usize> = BTreeSet::new();
+    // one plan in four starts with a split view: two nodes lose sight of each other (both still
+    // reach the rest), time passes beyond the heartbeat timeout, and both get writes for the same
+    // keys at the same moment, so two coordinators may be active for one partition
+    if n >= 3 && !calm && rng.chance(1, 3) {
+        let a = rng.usize_below(n);
+        let b = (a + 1 + rng.usize_below(n - 1)) % n;
+        ops.push(Op::Cut { a, b, on: true });
+        ops.push(Op::Advance { ms: hb_timeout_ms + 1500 });
+        for _ in 0..(2 + rng.usize_below(4)) {
+            let key = rng.usize_below(keys);
+            let events = if rng.chance(2, 3) { 1 } else { 2 + rng.usize_below(2) };
+            ops.push(Op::Write { node: a, key, events });
+            ops.push(Op::Write { node: b, key, events: 1 });
+            if rng.chance(1, 2) {
+                ops.push(Op::Advance { ms: *rng.pick(&[1u64, 20, 200]) });
+            }
+        }
+    }
     for _ in 0..nops {
         let a = rng.usize_below(n);
         let b = (a + 1 + rng.usize_below(n - 1)) % n;
